@@ -7,6 +7,7 @@ source of one module of the scratch `app` crate: annotated components that log w
 Classes: "free" (anything well-typed), "inclass" (C02: follows every documented rule and has
 trivially satisfiable ownership), "planted:<rule>" (C08: one violation planted into an in-class app).
 """
+import zlib
 import json
 
 MODES = ["val", "ref", "mut"]
@@ -47,7 +48,10 @@ def gen_spec(rng, name, klass="free", size=None, n_mws=None, own_stress=False):
         k = min(len(pool), rng.choice([1, 2, 2, 3] if own_stress else [0, 0, 1, 1, 2, 2, 3]))
         cloning = t["clone"] and rng.random() < (0.9 if own_stress else 0.6)
         c = {"i": i, "out": i, "life": life, "cloning": cloning, "ins": [], "fallible": False,
-             "async": rng.random() < 0.3}
+             "async": rng.random() < 0.3,
+             # a quarter of the constructors are associated functions of a `#[pavex::methods]` block (chosen without
+             # consuming the generator's random stream)
+             "method": zlib.crc32(("%s/%d" % (name, i)).encode()) % 4 == 0}
         ctors.append(c)
         if t["copy"]:
             usage[i] = "copy"
@@ -265,6 +269,11 @@ def render(spec):
             args.append("clone_if_necessary")
         if c["fallible"]:
             emit_err("c", i)
+        # `"method": true`: the constructor is an associated function inside a `#[pavex::methods] impl` block
+        as_method = bool(c.get("method")) and t["cap"] is None and i not in ctor_imports
+        if as_method:
+            w("#[pavex::methods]")
+            w("impl T%d {" % i)
         w("#[pavex::%s(%s)]" % (life, ", ".join(args)))
         params = ", ".join(_param(spec, k, j, m) for k, (j, m) in enumerate(c["ins"]))
         out = _ty(spec, i)
@@ -291,6 +300,8 @@ def render(spec):
         else:
             body += " " + build
         w("pub %sfn c%d%s(%s) -> %s { %s }" % ("async " if c["async"] else "", i, gen, params, ret, body))
+        if as_method:
+            w("}")
         if i in ctor_imports and not c["fallible"]:
             cgroup_src.setdefault(ctor_imports[i], []).extend(o[_cstart:])
             del o[_cstart:]
